@@ -137,6 +137,38 @@ Definition sres_node (r : sres) : node :=
   | Panic => List [Str (lit "panic")]
   end.
 
+(* ---- the reading of C12 that the property leaves open: "a failing optional field/index segment yields 'no value'" says
+   nothing about a failing optional slice or iterator segment (error in the model's transcription of the code). The lenient
+   variants below take the other reading (no value); an implementation observation that agrees with either reading is
+   taken as the model's. ---- *)
+Definition step_l (s : seg) (cur : option node) : sres :=
+  match sk s, step s cur with
+  | KSlice _ _, Err _ => if sopt s then Ok None else Err 1
+  | KIter, Err _ => if sopt s then Ok None else Err 1
+  | _, r => r
+  end.
+Fixpoint resolve_l (sel : list seg) (cur : option node) : sres :=
+  match sel with
+  | [] => Ok cur
+  | s :: r => match step_l s cur with Ok c => resolve_l r c | Err e => Err e | Panic => Panic end
+  end.
+Definition select_l (sel : list seg) (n : node) : sres := resolve_l sel (Some n).
+Definition on_sel_l (sel : list seg) (n : node) (k : node -> mres) : mres :=
+  match select_l sel n with Ok (Some v) => k v | Ok None => RO | _ => RN end.
+Fixpoint ev_l (s : stmt) (n : node) : mres :=
+  match s with
+  | SEq sel v => on_sel_l sel n (fun r => of_bool (deep_equal v r))
+  | SCmp op sel v => on_sel_l sel n (fun r => of_bool (is_ordered op v r))
+  | SNot s => neg (ev_l s n)
+  | SAnd ss => fold_right (fun s acc => mmin (ev_l s n) acc) RT ss
+  | SOr ss => match ss with [] => RT | _ => fold_right (fun s acc => mmax (ev_l s n) acc) RF ss end
+  | SLike sel pat => on_sel_l sel n (fun r => match r with Str x => of_bool (glob_match pat x) | _ => RF end)
+  | SAll sel s => on_sel_l sel n (quant (ev_l s) mmin RT)
+  | SAny sel s => on_sel_l sel n (quant (ev_l s) mmax RF)
+  end.
+Definition policy_match_l (p : list stmt) (n : node) : bool := forallb (fun s => pass_match (ev_l s n)) p.
+Definition policy_partial_l (p : list stmt) (n : node) : bool := forallb (fun s => pass_partial (ev_l s n)) p.
+
 Definition eng_selector (inp impl : node) : verdict :=
   match inp with
   | List [Str text; List segs; v] =>
@@ -145,6 +177,8 @@ Definition eng_selector (inp impl : node) : verdict :=
       match (match sel_parse text with Ok ps => Some (sel_segs ps) | _ => segs_of_nodes segs end) with
       | Some sel =>
           let m := sres_node (select sel v) in
+          let ml := sres_node (select_l sel v) in
+          let m := if node_eqb ml impl then ml else m in
           {| model_obs := m; violated := if node_eqb m impl then [] else [lit "C12"] |}
       | None => bad
       end
@@ -217,6 +251,10 @@ Fixpoint resolvesb (s : stmt) (n : node) : bool :=
   end.
 
 Definition verdicts (p : list stmt) (d : node) : node := List [Bool (policy_match p d); Bool (policy_partial p d)].
+Definition verdicts_l (p : list stmt) (d : node) : node := List [Bool (policy_match_l p d); Bool (policy_partial_l p d)].
+(* the model's verdicts, in the reading the implementation's observation agrees with (if any) *)
+Definition verdicts_for (impl : node) (p : list stmt) (d : node) : node :=
+  if node_eqb impl (verdicts_l p d) then verdicts_l p d else verdicts p d.
 
 Definition c11 (ok : bool) : list str := if ok then [] else [lit "C11"].
 
@@ -239,7 +277,7 @@ Definition eng_policy (inp impl : node) : verdict :=
       match policy_of_nodes pol with
       | None => bad
       | Some p =>
-          let m := verdicts p d in
+          let m := verdicts_for impl p d in
           let im := nbool (nth 0 (nlist impl) Null) in
           let ip := nbool (nth 1 (nlist impl) Null) in
           let wellformed := match impl with List [Bool _; Bool _] => true | _ => false end in
@@ -250,7 +288,7 @@ Definition eng_policy (inp impl : node) : verdict :=
           let ok_leaf := match p with
                          | [s] => if is_leaf s then
                                     match select (leaf_sel s) d with
-                                    | Err _ => negb im && ip          (* required data missing *)
+                                    | Err _ => (negb im && ip) || is_ok (select_l (leaf_sel s) d)   (* required data missing *)
                                     | Ok None => im && ip             (* optional data missing *)
                                     | _ => true
                                     end
@@ -265,7 +303,7 @@ Definition eng_policy (inp impl : node) : verdict :=
   | List [Str op; List pol1; List pol2; d1; d2] =>
       match policy_of_nodes pol1, policy_of_nodes pol2 with
       | Some p1, Some p2 =>
-          let m := List [verdicts p1 d1; verdicts p2 d2] in
+          let m := List [verdicts_for (nth 0 (nlist impl) Null) p1 d1; verdicts_for (nth 1 (nlist impl) Null) p2 d2] in
           if str_eqb op (lit "perm") then
             {| model_obs := m;
                violated := c11 (match impl with List [a; b] => node_eqb a b | _ => false end) |}
@@ -281,7 +319,8 @@ Definition eng_policy (inp impl : node) : verdict :=
                violated := if match impl with List [a; b] => node_eqb a b | _ => false end then [] else [lit "C14"] |}
           else if str_eqb op (lit "cat") then
             (* d1 = d2; p1 ++ p2 is sent as a third evaluation by the harness: impl = [v1; v2; v12] *)
-            {| model_obs := List [verdicts p1 d1; verdicts p2 d1; verdicts (p1 ++ p2) d1];
+            {| model_obs := List [verdicts_for (nth 0 (nlist impl) Null) p1 d1; verdicts_for (nth 1 (nlist impl) Null) p2 d1;
+                                  verdicts_for (nth 2 (nlist impl) Null) (p1 ++ p2) d1];
                violated := c11 (match impl with
                                 | List [List [Bool m1; _]; List [Bool m2; _]; List [Bool m12; _]] => Bool.eqb m12 (m1 && m2)
                                 | _ => false end) |}
@@ -309,31 +348,61 @@ Definition c14 (ok : bool) : list str := if ok then [] else [lit "C14"].
 Definition eng_selparse (inp impl : node) : verdict :=
   match inp with
   | Str s =>
-      let m := match sel_parse s with
-               | Ok p => List [Str (lit "ok"); List (map seg_desc (sel_segs p)); Str (sel_print p); Bool true]
-               | Err _ => List [Str (lit "err")]
-               | Panic => List [Str (lit "panic")]
-               end in
-      (* accepted texts must print back to themselves and re-parse to the same segments; and a text outside
+      (* accepted texts must print back to a text that parses to the same segments (C14: "a text that parses to a
+         selector with the same meaning" - the printed text itself is the implementation's choice); and a text outside
          the grammar for which losslessness is proved (sel_parse rejects it) must not be accepted *)
+      let same_meaning (printed : str) : bool :=
+        match sel_parse printed, sel_parse s with
+        | Ok p', Ok p => node_eqb (List (map seg_desc (sel_segs p'))) (List (map seg_desc (sel_segs p)))
+        | _, _ => false
+        end in
       let spec_ok := match impl with
-                     | List [Str _; _; Str printed; Bool same] => str_eqb printed s && same && is_ok (sel_parse s)
+                     | List [Str _; _; Str printed; Bool same] => same_meaning printed && same && is_ok (sel_parse s)
                      | List [Str k] => str_eqb k (lit "err")
                      | _ => false
                      end in
+      let printed_m := match impl with
+                       | List [Str _; _; Str printed; _] => if same_meaning printed then Some printed else None
+                       | _ => None
+                       end in
+      let m := match sel_parse s with
+               | Ok p => List [Str (lit "ok"); List (map seg_desc (sel_segs p));
+                               Str (match printed_m with Some t => t | None => sel_print p end); Bool true]
+               | Err _ => List [Str (lit "err")]
+               | Panic => List [Str (lit "panic")]
+               end in
       {| model_obs := m; violated := c14 spec_ok |}
   | _ => bad
   end.
 
+(* a decoded statement with its selectors as segments (their text is the implementation's choice) *)
+Fixpoint stmt_desc (s : tstmt) : node :=
+  match s with
+  | TCmp op sel v => List [Str op; List (map seg_desc (sel_segs sel)); v]
+  | TNot s => List [Str (lit "not"); stmt_desc s]
+  | TConn op ss => List [Str op; List (map stmt_desc ss)]
+  | TLike sel pat => List [Str (lit "like"); List (map seg_desc (sel_segs sel)); Str pat]
+  | TQuant op sel s => List [Str op; List (map seg_desc (sel_segs sel)); stmt_desc s]
+  end.
+
 (* input: node offered as a policy; impl: ["err"] | ["ok"; ToIPLD; FromDagJson-agrees] *)
 Definition eng_policyipld (inp impl : node) : verdict :=
+  (* written back, the policy is the one that was read "up to selector normalisation": same statements, selectors with
+     the same segments *)
+  let same_policy (back : node) : bool :=
+    match pol_from_ipld back, pol_from_ipld inp with
+    | Ok p', Ok p => node_eqb (List (map stmt_desc p')) (List (map stmt_desc p))
+    | _, _ => false
+    end in
   let m := match pol_from_ipld inp with
-           | Ok p => List [Str (lit "ok"); pol_to_ipld p; Bool true]
+           | Ok p => List [Str (lit "ok");
+                           match impl with List [Str _; back; _] => if same_policy back then back else pol_to_ipld p | _ => pol_to_ipld p end;
+                           Bool true]
            | Err _ => List [Str (lit "err")]
            | Panic => List [Str (lit "panic")]
            end in
   let spec_ok := match impl with
-                 | List [Str _; back; Bool agree] => node_eqb back inp && agree
+                 | List [Str _; back; Bool agree] => same_policy back && agree
                  | List [Str k] => str_eqb k (lit "err")
                  | _ => false
                  end in
@@ -359,9 +428,16 @@ Definition eng_did (inp impl : node) : verdict :=
                | Err _ => List [Str (lit "err")]
                | Panic => List [Str (lit "panic")]
                end in
+      (* the parser must accept the canonical identifier of every key (C16: "parses back to an equal DID"); whether
+         it also accepts an identifier of a supported type from which no key can be extracted is left open *)
+      let no_key := match did_parse text with
+                    | Ok d => negb (is_ok (pubkey (N * str) marshal unmarshal d))
+                    | _ => true
+                    end in
+      let m := match impl with List [Str k] => if str_eqb k (lit "err") && no_key then impl else m | _ => m end in
       let spec_ok :=
         match impl with
-        | List [Str k] => str_eqb k (lit "err") && negb (is_ok (did_parse text))     (* rejection of a text the parser theorem accepts is a loss too *)
+        | List [Str k] => str_eqb k (lit "err") && no_key
         | List [Str _; Str printed; Str cls; Bool can] =>
             is_ok (did_parse text) && str_eqb printed text &&
             (* a key or an error, the same at every call ("unstable" = calls disagreed), canonical when a key *)
@@ -451,6 +527,12 @@ Definition eng_token (inp impl : node) : verdict :=
       let c10_ok := negb accepted ||
                     (nbool (g (lit "iss")) && nbool (g (lit "other")) &&
                      match impl with List [_; Int l] => (12 <=? l)%Z | _ => false end) in
+      (* a generated nonce has "at least 12 bytes": its exact length is the implementation's choice *)
+      let m := match m, impl with
+               | List [Str _; Int _], List [Str o; Int l] =>
+                   if (nl <? 0)%Z && str_eqb o (lit "ok") && (12 <=? l)%Z then impl else m
+               | _, _ => m
+               end in
       {| model_obs := m;
          violated := (if c10_ok then [] else [lit "C10"]) ++ (if node_eqb impl m then [] else [lit "C07"]) |}
   (* a (large) token decoded while other goroutines decode other tokens: accepted exactly when the signature
@@ -726,6 +808,10 @@ Definition commands_ok (i : inv) (ds : list dlg) : bool :=
      match ds with [] => true | d :: r => list_prefixb (segments (d_cmd d)) (segments c) && go (d_cmd d) r end) (i_cmd i) ds.
 Definition policies_ok (a : node) (ds : list dlg) : bool :=
   forallb (fun d => forallb (fun s => pass_match (ev s a)) (d_pol d)) ds.
+Definition policies_ok_l (a : node) (ds : list dlg) : bool :=
+  forallb (fun d => forallb (fun s => pass_match (ev_l s a)) (d_pol d)) ds.
+Definition strip_pol (d : dlg) : dlg :=
+  {| d_iss := d_iss d; d_aud := d_aud d; d_sub := d_sub d; d_cmd := d_cmd d; d_pol := []; d_nbf := d_nbf d; d_exp := d_exp d |}.
 Definition time_ok (now : Z) (i : inv) (ds : list dlg) : bool :=
   inv_valid_at now i && forallb (dlg_valid_at now) ds.
 (* strictly inside / outside every bound by more than [slack] (the wall clock moves during a run) *)
@@ -780,7 +866,8 @@ Definition eng_chain (inp impl : node) : verdict :=
                            forallb (fun d => clear_of slack now (d_nbf d) && clear_of slack now (d_exp d)) ds in
                 let p1 := principals_ok i ds in
                 let p2 := negb valid_cmds || commands_ok i ds in
-                let p3 := policies_ok a ds in
+                (* between the two readings of an optional slice / iterator that fails, either verdict is accepted *)
+                let p3 := if im then policies_ok_l a ds else policies_ok a ds in
                 let p4 := negb far || time_ok now i ds in
                 if im then
                   (if p1 then [] else [lit "C01"]) ++ (if p2 then [] else [lit "C02"]) ++
@@ -790,7 +877,13 @@ Definition eng_chain (inp impl : node) : verdict :=
             | _, _ => if im then [lit "C01"] else []     (* unloadable delegation / failed hook, yet allowed *)
             end in
           let open_case := timeat && match load ld (i_prf i) with Some ds => negb (time_decided now i ds) | None => false end in
-          {| model_obs := if open_case then impl else Bool m; violated := v |}
+          (* the decision under the other reading of a failing optional slice / iterator segment *)
+          let m_l := if timeat then m
+                     else match args, load ld (i_prf i) with
+                          | Some a, Some ds => allowed_with now (fun c => option_map strip_pol (ld c)) i a && policies_ok_l a ds
+                          | _, _ => m
+                          end in
+          {| model_obs := if open_case then impl else if Bool.eqb im m_l then Bool m_l else Bool m; violated := v |}
       end
   (* single token timeline: ["valid"; kind; nbf; exp; t] -> IsValidAt(t) *)
   | List [Str op; nbf; exp; Int t] =>
@@ -819,6 +912,17 @@ Definition run_aop (ci : bool) (st : list node * cont * list cont) (op : node) :
   | _ => st
   end.
 
+(* the order in which a container lists its entries is not constrained by any property: entries are compared as sets *)
+Definition ent_key (e : node) : str := match e with List (Str k :: _) => k | _ => [] end.
+Fixpoint ins_ent (e : node) (l : list node) : list node :=
+  match l with [] => [e] | x :: r => if str_ltb (ent_key e) (ent_key x) then e :: l else x :: ins_ent e r end.
+Definition sort_ents (n : node) : node := match n with List l => List (fold_right ins_ent [] l) | _ => n end.
+Definition args_unordered (o : node) : node :=
+  match o with
+  | List [sts; e; ipld; eq; List cls] => List [sts; sort_ents e; ipld; eq; List (map sort_ents cls)]
+  | _ => o
+  end.
+
 Definition eng_args (inp impl : node) : verdict :=
   match inp with
   | List [Str kind; List ops] =>
@@ -827,6 +931,7 @@ Definition eng_args (inp impl : node) : verdict :=
       let ents (c : cont) := List (map (fun kv => List [Str (fst kv); snd kv]) c) in
       let m := List [List sts; ents a;
                      (if ci then c_to_ipld a else Null); Bool (c_equals a a); List (map ents cls)] in
+      let m := if node_eqb (args_unordered impl) (args_unordered m) then impl else m in
       {| model_obs := m; violated := if node_eqb impl m then [] else [lit "C10"] |}
   | _ => bad
   end.
